@@ -534,6 +534,10 @@ fn herr(code: &str) -> Box<HErr> {
 }
 // codes ending in an even byte travel as structured errors, the others as strings
 fn structured(code: &str) -> bool {
+    // (texts produced by the ret_fail!/ret_failthru! macros and the literal arms are always strings)
+    if code.starts_with("rf") || code.starts_with("pf") || code.starts_with("pt") || code.contains("lit{") {
+        return false;
+    }
     code.bytes().last().map(|b| b % 2 == 0).unwrap_or(false)
 }
 fn payload_intact(c: &Option<StopCause>) -> bool {
@@ -1233,8 +1237,11 @@ fn exec_op(op: &Value, ctx: &mut Ctx) {
             match ctx {
                 Ctx::M(n, cx) => {
                     ev(format!(r#"{{"e":"fail","aid":{},"code":"{}"}}"#, n.aid, code));
-                    if structured(&code) {
-                        cx.fail(*herr(&code));
+                    if code == "flit{{1}}" {
+                        // the literal arm of fail!: verbatim text
+                        fail!(cx, "flit{{1}}");
+                    } else if structured(&code) {
+                        fail!(cx, *herr(&code));
                     } else if code.len() % 2 == 0 {
                         cx.fail_str(Box::leak(code.into_boxed_str()));
                     } else {
@@ -1243,8 +1250,11 @@ fn exec_op(op: &Value, ctx: &mut Ctx) {
                 }
                 Ctx::P(a, cx) => {
                     ev(format!(r#"{{"e":"fail","aid":{},"code":"{}"}}"#, a, code));
-                    if structured(&code) {
-                        cx.fail(*herr(&code));
+                    if code == "flit{{1}}" {
+                        // the literal arm of fail!: verbatim text
+                        fail!(cx, "flit{{1}}");
+                    } else if structured(&code) {
+                        fail!(cx, *herr(&code));
                     } else if code.len() % 2 == 0 {
                         cx.fail_str(Box::leak(code.into_boxed_str()));
                     } else {
@@ -1287,7 +1297,10 @@ fn exec_op(op: &Value, ctx: &mut Ctx) {
                 ev(format!(r#"{{"e":"dkill","aid":{},"code":"{}"}}"#, h.aid, code));
                 {
                     let o = h.own.as_ref().unwrap();
-                    if structured(&code) {
+                    if code == "lit{{0}}" {
+                        // the literal arm: the text is delivered verbatim (no formatting)
+                        kill!(o, "lit{{0}}");
+                    } else if structured(&code) {
                         kill!(o, herr(&code) as Box<dyn std::error::Error>);
                     } else {
                         kill!(o, "{}", code);
@@ -1451,6 +1464,15 @@ fn exec_op(op: &Value, ctx: &mut Ctx) {
                         m.unwrap_or(0)
                     ));
                 }),
+                // ret_fail!: whoever uses or drops this Ret fails the actor that made it
+                "retfail" => {
+                    if let Ctx::M(_, cx) = ctx {
+                        ret_fail!(cx, "rf{}", rid)
+                    } else {
+                        ev(r#"{"e":"nop","why":"retfail outside a method"}"#.to_string());
+                        return;
+                    }
+                }
                 // ret_some_do!: the closure only hears about Some
                 "somedo" => ret_some_do!(move |v: i64| {
                     ev(format!(r#"{{"e":"retcb","rid":{},"has":true,"val":{}}}"#, rid, v));
